@@ -76,8 +76,23 @@ def cfg_strategy():
             "gate": S.gate_flags,
             "frame_tcp": S.binary(0, 12),
             "frame_smb": S.binary(0, 12),
+            # a configuration may state the same static header / parameter name more than once (the binary program is
+            # just a list of steps): (program, which static, new value)
+            "dup_statics": st.one_of(st.just([]), st.lists(st.tuples(st.sampled_from(["get", "post"]), st.integers(0, 5), st.text(alphabet=S.token_chars + " ;=/", max_size=12).map(lambda t: t.strip().encode())), min_size=1, max_size=3)),
         }
     )
+
+
+def effective_steps(case, which):
+    steps = [tuple(s) for s in case[which + "_steps"]]
+    for prog, idx, val in case.get("dup_statics") or []:
+        statics = [s for s in steps if s[0] in ("_HEADER", "_PARAMETER", "_HOSTHEADER")]
+        if prog != which or not statics:
+            continue
+        n, a = statics[idx % len(statics)]
+        sep = b"=" if n == "_PARAMETER" else b": "
+        steps.append((n, a.partition(sep)[0] + sep + bytes(val)))
+    return steps
 
 
 def cstr(s, pad=None):
@@ -97,8 +112,8 @@ def build_settings(case):
         ("verb_get", (26, PTR, cstr(case["verb_get"], 16))),
         ("verb_post", (27, PTR, cstr(case["verb_post"], 16))),
         ("recover", (11, PTR, P.enc_recover([tuple(s) for s in case["recover_steps"]], pad_to=256))),
-        ("get", (12, PTR, P.enc_transform([tuple(s) for s in case["get_steps"]], build0="metadata", pad_to=512))),
-        ("post", (13, PTR, P.enc_transform([tuple(s) for s in case["post_steps"]], build0="id", pad_to=512))),
+        ("get", (12, PTR, P.enc_transform(effective_steps(case, "get"), build0="metadata", pad_to=512))),
+        ("post", (13, PTR, P.enc_transform(effective_steps(case, "post"), build0="id", pad_to=512))),
         ("spawnto_x86", (29, PTR, cstr(case["spawnto_x86"], 64))),
         ("spawnto_x64", (30, PTR, cstr(case["spawnto_x64"], 64))),
         ("cleanup", (38, SHORT, struct.pack(">H", case["cleanup"]))),
@@ -242,8 +257,8 @@ def execute(case, stats):
         expect_text("http-get.verb", case["verb_get"], "verb")
     if "verb_post" in present:
         expect_text("http-post.verb", case["verb_post"], "verb")
-    get_steps = [tuple(s) for s in case["get_steps"]]
-    post_steps = [tuple(s) for s in case["post_steps"]]
+    get_steps = effective_steps(case, "get")
+    post_steps = effective_steps(case, "post")
     if "get" in present:
         hdr, prm = statics_expected(get_steps)
         expect_pairs("http-get.client.header", hdr, "static_header")
@@ -354,7 +369,7 @@ def execute(case, stats):
     special = any(any(c < 0x20 or c > 0x7E or c in b"\"'\\" for c in a) for a in args)
     indiv = "gate" in present and 0 < sum(map(bool, flags)) < 23 and not all(flags[2:22])
     off = "execute" in present and any(isinstance(e, (tuple, list)) and e[3] for e in case["execute"])
-    stats.note(case, special or indiv or off, classes=["settings_%d" % (len(present) // 10 * 10), "special_arg" if special else "plain_args", "gate_individual" if indiv else "gate_other", "execute_offset" if off else "no_offset"])
+    stats.note(case, special or indiv or off, classes=["settings_%d" % (len(present) // 10 * 10), "special_arg" if special else "plain_args", "gate_individual" if indiv else "gate_other", "execute_offset" if off else "no_offset", "repeated_static_name" if len(get_steps) + len(post_steps) > len(case["get_steps"]) + len(case["post_steps"]) else "distinct_static_names"])
 
 
 def samples_enumerate(tier, shard, nshards):
